@@ -452,7 +452,84 @@ def execute_slow_resolver(desc):
         s.cleanup()
 
 
+def execute_aged(desc):
+    """A `run` that has held the lock for a while (longer than bind_timeout_ms - the default of one second,
+    or a short configured one) and is still working: every API tried then is refused like one tried at
+    once, starts nothing and changes nothing; afterwards the holder finishes normally."""
+    age_s, bind_ms = desc["age_s"], desc.get("bind_ms")
+    s = sc.Scratch("c14age")
+    try:
+        r = sc.Repo(s, "r", TARGETS, commands={"a": {"build": "x"}, "b": {"build": "x"}})
+        if bind_ms:
+            r.cfg["server"]["lock"]["bind_timeout_ms"] = bind_ms
+            r.write_cfg()
+            r.commit("bind timeout")
+        r.set_script("a", "build", ["out " + b"first run\n".hex(), "exit 0"])
+        r.set_script("b", "build", ["out " + b"first run b\n".hex(), "exit 0"])
+        if r.mr("run", "-c", "build", env=r.trace_env()).code != 0:
+            raise common.EngineError("seed run failed")
+        r.write("a/new.txt", "x\n")
+        if r.mr("checkpoint", "update", "-p").code != 0:
+            raise common.EngineError("seed checkpoint failed")
+        viol = []
+        c = ctlmod.Controller(s)
+        try:
+            env = s.env(c.env())
+            holder = c.spawn("holder", [common.MONORAIL, "run", "-c", "build", "-t", "a", "b", "--deps"], r.dir, env)
+            c.wait(lambda: len(c.waiting()) >= 2 or holder.done(), 15)
+            mine = list(c.waiting())
+            if len(mine) < 2:
+                raise common.EngineError("the holding run did not start its executables (exit %s %s)" % (holder.code, holder.err[:200]))
+            c.wait(lambda: False, age_s)
+            for api in desc["apis"]:
+                before = sc.snapshot(r.out_dir())
+                nchildren = len(c.children)
+                p = c.spawn("late:" + api, [common.MONORAIL] + APIS[api], r.dir, env)
+                t_end = time.time() + 10
+                while not p.done() and time.time() < t_end:
+                    c.pump(0.01)
+                    for ch in list(c.waiting()):
+                        if ch not in mine:
+                            c.release(ch, 0)   # an intruding run's executables: let it end
+                if not p.done():
+                    c.kill(p, group=True)
+                    c.wait(lambda: p.done(), 5)
+                    viol.append(("contender-hung", "%s tried %.1f s after a run acquired the lock and did not finish" % (api, age_s)))
+                    continue
+                err = sc.Result(p.code, p.out, p.err).err_json() or {}
+                if p.code == 0 or err.get("type") != "server" or "Lock acquisition failed" not in str(err.get("message")):
+                    viol.append(("two-holders", "%s tried %.1f s after a run acquired the lock (bind_timeout_ms %s), the run still working: exit %s %s" % (api, age_s, bind_ms or "default", p.code, (p.err or p.out)[:150])))
+                if len(c.children) != nchildren:
+                    viol.append(("loser-started-executable", "%s tried while a run has been holding the lock for %.1f s started an executable" % (api, age_s)))
+                after = sc.snapshot(r.out_dir())
+                if after != before:
+                    diff = sorted(set(after.items()) ^ set(before.items()))[:4]
+                    viol.append(("loser-modified-state", "%s tried while a run has been holding the lock for %.1f s changed <out_dir>: %s" % (api, age_s, diff)))
+            for ch in mine:
+                c.release(ch, 0, ["out " + b"holder\n".hex()])
+            c.wait(lambda: holder.done(), 20)
+            if not holder.done():
+                c.kill(holder, group=True)
+                c.wait(lambda: holder.done(), 5)
+                viol.append(("holder-hung", "the holding run did not finish"))
+            elif holder.code != 0 and not viol:
+                viol.append(("holder-failed", "the holding run exited %s %s" % (holder.code, holder.err[:200])))
+            return {"evaluations": 1, "nontrivial": 1, "states": [["aged-holder", str(age_s), str(bind_ms)]], "transitions": len(desc["apis"]),
+                    "violations": [{"sig": sig, "detail": d, "rank": 50, "case": {"c14a": desc}} for sig, d in viol],
+                    "sample": {"holder_age_s": age_s, "bind_timeout_ms": bind_ms, "apis": desc["apis"]}}
+        finally:
+            c.close()
+    except common.EngineError as e:
+        return {"engine_error": str(e)}
+    except Exception:
+        return {"engine_error": traceback.format_exc()[-1500:]}
+    finally:
+        s.cleanup()
+
+
 def _exec_any(desc):
+    if "age_s" in desc:
+        return execute_aged(desc)
     if "dirs" in desc:
         return execute_exit_tail(desc)
     if "delay_ms" in desc:
@@ -482,6 +559,11 @@ def scenarios(tier):
         out.append({"api": api, "delay_ms": 700, "timeout_ms": 200})
     for api in ("checkpoint_update", "checkpoint_delete"):
         out.append({"api": api, "dirs": 20000 if tier == "quick" else 60000})
+    out.append({"age_s": 1.6, "apis": names})
+    out.append({"age_s": 0.9, "bind_ms": 300, "apis": names})
+    if tier != "quick":
+        out.append({"age_s": 3.5, "apis": names})
+        out.append({"age_s": 0.4, "bind_ms": 100, "apis": list(reversed(names))})
     out.append({"ports": [65535, 65536, 70000, 131072], "apis": ["checkpoint_update", "out_delete"] if tier == "quick" else names})
     return out
 
@@ -501,7 +583,7 @@ def run(prop, tier):
            "distinct_nontrivial": sum(r["nontrivial"] for r in results),
            "violations": [v for r in results for v in r["violations"]],
            "samples": [r["sample"] for r in results[:: max(1, len(results) // 5)]][:6], "exhaustive": True,
-           "rule": "contenders: every ordered pair (thorough: plus every multiset of 3) over {run, checkpoint update, checkpoint delete, out delete --all}, all started and held at lock.pre; every maximal sequence of {attempt i, finish holder, kill holder (SIGKILL)}, plus for pairs an attempt that is still in progress (2 s, bind timeout raised to 6 s) when the holder finishes or is killed; plus contenders that descend from a holder (a command executable of the holding run, or the orphaned executable of a SIGKILLed run while another run holds, starts each of the four APIs with the environment monorail gave it); plus back-to-back contenders during the exit tail of a run that reuses a slot holding tens of thousands of directories; plus contenders for which the name service of the lock host answers slower than bind_timeout_ms (LD_PRELOAD shim around getaddrinfo) while a run holds the lock; plus lock ports at and beyond the end of the valid range (65535, 65536, 70000, 131072) shared by a holding run and a contender; each sequence executed from scratch on real processes against a repository with a checkpoint and a completed run; invariants: never two contenders past lock acquisition; an attempt while somebody holds exits non-zero with a server lock error, starts no executable and leaves <out_dir> byte-identical (also compared with its state before any contender was started, as long as no holder has worked); an attempt while nobody holds (initially, after exit, after SIGKILL) acquires at once; states = (contender statuses, holder) per contender tuple"}
+           "rule": "contenders: every ordered pair (thorough: plus every multiset of 3) over {run, checkpoint update, checkpoint delete, out delete --all}, all started and held at lock.pre; every maximal sequence of {attempt i, finish holder, kill holder (SIGKILL)}, plus for pairs an attempt that is still in progress (2 s, bind timeout raised to 6 s) when the holder finishes or is killed; plus contenders that descend from a holder (a command executable of the holding run, or the orphaned executable of a SIGKILLed run while another run holds, starts each of the four APIs with the environment monorail gave it); plus back-to-back contenders during the exit tail of a run that reuses a slot holding tens of thousands of directories; plus contenders for which the name service of the lock host answers slower than bind_timeout_ms (LD_PRELOAD shim around getaddrinfo) while a run holds the lock; plus every API tried after a run has been holding the lock for longer than bind_timeout_ms (default and configured short) and is still working; plus lock ports at and beyond the end of the valid range (65535, 65536, 70000, 131072) shared by a holding run and a contender; each sequence executed from scratch on real processes against a repository with a checkpoint and a completed run; invariants: never two contenders past lock acquisition; an attempt while somebody holds exits non-zero with a server lock error, starts no executable and leaves <out_dir> byte-identical (also compared with its state before any contender was started, as long as no holder has worked); an attempt while nobody holds (initially, after exit, after SIGKILL) acquires at once; states = (contender statuses, holder) per contender tuple"}
     by = {}
     for v in agg["violations"]:
         by[v["sig"]] = by.get(v["sig"], 0) + 1
@@ -514,7 +596,7 @@ def run(prop, tier):
 
 def replay(prop, path):
     body = json.load(open(path))
-    r = _exec_any(body["case"].get("c14t") or body["case"].get("c14r") or body["case"].get("c14p") or body["case"].get("c14n") or body["case"]["c14"])
+    r = _exec_any(body["case"].get("c14a") or body["case"].get("c14t") or body["case"].get("c14r") or body["case"].get("c14p") or body["case"].get("c14n") or body["case"]["c14"])
     if "engine_error" in r:
         print("ENGINE:", r["engine_error"])
         return 2
